@@ -2,6 +2,7 @@ import OdcGeo.Model.C13
 import OdcGeo.Model.C12
 import OdcGeo.Model.C13Nd
 import OdcGeo.Model.C13Kw
+import OdcGeo.Model.C13Glue
 namespace OdcGeo.C13.Drv
 open OdcGeo OdcGeo.IO OdcGeo.C13
 
@@ -92,6 +93,26 @@ def parseKwList? (s : String) : Option (List (String × String)) :=
     match e.splitOn "=" with
     | [k, v] => some (k, v)
     | _ => none
+
+/-! glue ops (Model/C13Glue): raw nodata `N` (none) / `n` (NaN) / rational; chunk argument `N` (None) /
+`p:cy:cx` / `v:[..]:[..]` -/
+
+def parseRaw? (s : String) : Option RawNd :=
+  if s = "n" then some .nan else (parseRat? s).map RawNd.num
+
+def parseChunkArg? (s : String) : Option ChunkArg :=
+  if s = "N" then some .default
+  else match s.splitOn ":" with
+    | ["p", a, b] => do let a ← parseInt? a; let b ← parseInt? b; pure (.pair a b)
+    | ["v", a, b] => do let a ← parseList? parseNat? a; let b ← parseList? parseNat? b; pure (.var a b)
+    | _ => none
+
+def fmtGRes {α} (f : α → String) : GRes α → String
+  | .ok a => f a
+  | .error e => e.toStr
+
+def fmtTilings (t : List Span × List Span) : String :=
+  s!"{fmtList fmtSpan t.1} {fmtList fmtSpan t.2}"
 
 structure Common where
   c : Cfg
@@ -198,6 +219,75 @@ def run (args : List String) : Option String :=
     pure (fmtRes (fun (k : WarpKw) =>
       s!"resampling={k.resampling};src_nodata={fmtOpt fmtVal k.srcNd};dst_nodata={fmtOpt fmtVal k.dstNd};axis={k.axis};" ++
         ",".intercalate (k.extra.map fun p => s!"{p.1}={p.2}")) (chunkTaskKw r sn dn ydim kw))
+  | ["fillraw", b, lo, hi, dn, sn] => do
+    -- `resolve_fill_value(dst_nodata, src_nodata, <integer dtype lo..hi>)`, b = T: code of fix2-C13
+    let b ← parseBool? b; let lo ← parseInt? lo; let hi ← parseInt? hi
+    let dn ← parseOpt? parseRaw? dn; let sn ← parseOpt? parseRaw? sn
+    pure (fmtGRes toString (resolveFillInt b ⟨lo, hi⟩ dn sn))
+  | ["wholefill", lo, hi, dn, sn] => do
+    -- what the warp leaves in an unreached pixel of an integer raster (rasterio range test + GDAL init)
+    let lo ← parseInt? lo; let hi ← parseInt? hi
+    let dn ← parseOpt? parseRaw? dn; let sn ← parseOpt? parseRaw? sn
+    pure (fmtGRes toString (wholeFillInt ⟨lo, hi⟩ dn sn))
+  | ["masks", sn, p] => do
+    let sn ← parseOpt? parseRaw? sn; let p ← parseInt? p
+    pure (fmtBool (warpMasks sn p))
+  | ["chunks", H, W, sy, sx, arg] => do
+    let H ← parseNat? H; let W ← parseNat? W
+    let sy ← parseList? parseNat? sy; let sx ← parseList? parseNat? sx
+    let arg ← parseChunkArg? arg
+    pure (fmtGRes fmtTilings (dstTilings H W sy sx arg))
+  | ["declared", ydim, srcChunks, H, W, arg] => do
+    -- `.shape`, `.chunks`, `.numblocks` of the array `_dask_rio_reproject` returns; source chunks `[..]/[..]/[..]`
+    let ydim ← parseNat? ydim; let H ← parseNat? H; let W ← parseNat? W
+    let sc ← (srcChunks.splitOn "/").mapM (parseList? parseNat?)
+    let arg ← parseChunkArg? arg
+    match sc[ydim]?, sc[ydim + 1]? with
+    | some sy, some sx =>
+      pure (fmtGRes (fun (t : List Span × List Span) =>
+        let d := declared ydim (sc.map fun c => c.map Int.ofNat) H W t.1 t.2
+        s!"{fmtList toString d.shape} " ++ "/".intercalate (d.chunks.map (fmtList toString)) ++ s!" {fmtList toString d.blocks}")
+        (dstTilings H W sy sx arg))
+    | _, _ => none
+  | "xr" :: mode :: attr :: arg :: rest => do
+    -- `xr_reproject(src [dask|numpy], dst_geobox, src_nodata=<sn field>, dst_nodata=<dn field>, chunks=arg)`,
+    -- `attr` = the nodata attribute of the source; destination chunk fields of the common part are unused
+    let x ← parseCommon? rest
+    let attr ← parseOpt? parseVal? attr
+    let arg ← parseChunkArg? arg
+    let sy ← match rest with
+      | _ :: _ :: _ :: _ :: _ :: _ :: _ :: _ :: _ :: _ :: _ :: sy :: _ => parseList? parseNat? sy
+      | _ => none
+    let sx ← match rest with
+      | _ :: _ :: _ :: _ :: _ :: _ :: _ :: _ :: _ :: _ :: _ :: _ :: sx :: _ => parseList? parseNat? sx
+      | _ => none
+    let a : XrArgs := { kind := x.c.kind, srcH := x.c.srcH.toNat, srcW := x.c.srcW.toNat, S := x.c.S,
+                        dstH := x.c.dstH.toNat, dstW := x.c.dstW.toNat, D := x.c.D, sy := sy, sx := sx,
+                        attrNd := attr, kwSrcNd := x.c.srcNd, dstNd := x.c.dstNd, chunks := arg }
+    if mode = "dask" then
+      pure (fmtGRes (fmtImg x.c.dstH x.c.dstW) (xrDask a x.G x.c.deps x.src))
+    else if mode = "numpy" then
+      pure (fmtImg x.c.dstH x.c.dstW (xrNumpy a x.G x.src (full x.c.dstH x.c.dstW (.num 77))))
+    else none
+  | "warpaffine" :: rest => do
+    -- `warp_affine(src, dst, A, "nearest", src_nodata, dst_nodata)`; `A` is the D field, S is unused
+    let x ← parseCommon? rest
+    let buf := full x.c.dstH x.c.dstW (.num 55)
+    pure (fmtImg x.c.dstH x.c.dstW
+      (warpAffine x.c.variant x.G x.c.kind x.src x.c.srcH x.c.srcW buf x.c.D x.c.srcNd x.c.dstNd))
+  | ["isnn", name] => pure (fmtBool (isResamplingNN name))
+  | ["rioydim", ndim, ydim] => do
+    let ndim ← parseNat? ndim; let ydim ← parseOpt? parseNat? ydim
+    pure (toString (rioYdim ndim ydim))
+  | ["gdalkw", path, r, sn, dn, ydim, extras] => do
+    -- keywords reaching rasterio.warp.reproject from a chunk task (`chunk`) / the in-memory call (`whole`)
+    let sn ← parseOpt? parseVal? sn; let dn ← parseOpt? parseVal? dn; let ydim ← parseNat? ydim
+    let kw ← parseKwList? extras
+    let res ← if path = "chunk" then some (gdalKwOfChunk r sn dn ydim kw)
+      else if path = "whole" then some (gdalKwOfWhole r sn dn ydim kw) else none
+    pure (fmtRes (fun (k : WarpKw) =>
+      s!"resampling={k.resampling};src_nodata={fmtOpt fmtVal k.srcNd};dst_nodata={fmtOpt fmtVal k.dstNd};" ++
+        ",".intercalate (k.extra.map fun p => s!"{p.1}={p.2}")) res)
   | "warp" :: rest => do
     -- `_rio_reproject` on a caller buffer (no NaN default); chunk fields unused
     let x ← parseCommon? rest
